@@ -401,3 +401,23 @@ def check_c16(ctx):
                  ENGINE_ASSUME + ["kernel behaviour (pread/mmap coherence, io_uring completion order) is exercised, not modelled: the model has one write path; "
                                   "C16_completion_order_irrelevant covers the one place where the FD path is allowed to differ (completion order of a batch)"],
                  real_profiles=[("backends", 6, 60)])
+
+
+def check_c06(ctx):
+    mods = ["WalrusVerif.Props.C06"]
+    if ctx.replay:
+        do_replay(ctx, mods, ["C06"])
+    engine_check(ctx, mods,
+                 [("restart", 350, 6000), ("restart_any", 250, 5000)],
+                 ["C06"],
+                 "restart histories over 2 topics: clean close+open in one process and process restarts (8% of the operations) interleaved with appends, "
+                 "batches, both read APIs, peeks and counts, followed by a full drain. Profile `restart`: StrictlyAtOnce, monotone clock, single-unit "
+                 "entries, no rejected operation - the region of theorem C06_restarts_invisible, in which the entry-level model AEngR is compared with "
+                 "the storage-level model and the engine across every restart. Profile `restart_any`: also AtLeastOnce, rejected operations, multi-unit "
+                 "entries and a wall clock stepping back between runs - the regions of the open findings, where violations must be explained by a "
+                 "trigger that fired in the same program. Oracle: after any number of restarts the consumer sees the same stream, order, remaining "
+                 "entries and counts (StrictlyAtOnce: exactly; AtLeastOnce: resumes at some position <= the in-memory one, nothing skipped); "
+                 "non-trivial = distinct program that rotated a block, reopened or had a rejected operation",
+                 ENGINE_ASSUME + ["clean shutdown: the instance is dropped before the process ends (kills are C07/C09)",
+                                  "the recovery scan (startup_chore) is covered by the correspondence of Eng.openInst with the real engine, not by a theorem"],
+                 real_profiles=[("restart", 8, 80)])
